@@ -15,6 +15,9 @@ SeqsUpTo(n) == UNION {[1..m -> Segs] : m \in 0..n}
 KeysU == SeqsUpTo(MaxDepth) \ {<<>>}
 DirsU == SeqsUpTo(MaxDepth - 1)
 UrlsU == {[up |-> u, segs |-> s, md |-> m, dot |-> d] : u \in 0..MaxUp, s \in SeqsUpTo(2) \ {<<>>}, m \in BOOLEAN, d \in BOOLEAN}
+\* "." and ".." between names (sub/../2, sub/./2, a/b/../c, a/../../b)
+MidSegs == UNION {{<<a, "..", b>>, <<a, ".", b>>, <<a, b, "..", a>>, <<a, "..", "..", b>>} : a \in Segs, b \in Segs}
+UrlsMid == {[up |-> u, segs |-> s, md |-> m, dot |-> FALSE] : u \in 0..1, s \in MidSegs, m \in BOOLEAN}
 
 VARIABLES kind, k, d, u
 vars == <<kind, k, d, u>>
@@ -25,6 +28,7 @@ Next == /\ kind = "none"
         /\ \/ \E kk \in KeysU, dd \in DirsU : kind' = "write" /\ k' = kk /\ d' = dd /\ UNCHANGED u
            \/ \E dd \in DirsU, uu \in UrlsU : /\ ~(uu.dot /\ uu.up > 0)
                                               /\ kind' = "read" /\ d' = dd /\ u' = uu /\ UNCHANGED k
+           \/ \E dd \in SeqsUpTo(2), uu \in UrlsMid : kind' = "read" /\ d' = dd /\ u' = uu /\ UNCHANGED k
 
 Spec == Init /\ [][Next]_vars
 
